@@ -656,7 +656,7 @@ def run(ck, prog, tier):
     check_steps_before_reversal(ck, fn, main_paths)
     n_paths, n_ops = motion.check_precision(ck, 'C03-D5-precision', fn, all_out)
     ck.floor('calculate_lm mpmath operations', n_ops, 10)
-    n_div = motion.check_float_division(ck, 'C03-D5-float-division', fn)
+    n_div = motion.check_float_division_closure(ck, 'C03-D5-float-division', prog, fn)
     ck.floor('calculate_lm division sites', n_div, 2)
     # D6 wrapper
     f_w = prog.func('ebb_motion.moveTimeLM')
